@@ -134,6 +134,13 @@ def is_buffered_transition(cur_state, new_angle, hard_boundaries,
     # By default, we assume that no transition has occurred
     result = False
 
+    # A basin whose buffered width spans the whole circle cannot be left
+    # (its gates would cross a second time and invert the tests below).
+    basin_width = (hard_boundaries[int(cur_state) + 1] -
+                   hard_boundaries[int(cur_state)])
+    if basin_width + 2 * buffer_width >= 360:
+        return False
+
     # Given the current angle, we need to identify the "gates"
     lower_bound, upper_bound = get_gates(cur_state, hard_boundaries,
                                          buffer_width)
@@ -239,6 +246,8 @@ def psi_rotamers(traj, buffer_width=15):
     # shift by 100 so boundaries at 0 and 360
     shifted_angles = angles-100
     shifted_angles[np.where(shifted_angles < 0)] += 360
+    # a tiny negative value plus 360 rounds to 360.0 (cf. dihedral_angles)
+    shifted_angles[np.where(shifted_angles > 359.5)] = 359.5
     hard_boundaries = [0, 160, 360]
 
     n_frames, n_angles = angles.shape
